@@ -497,33 +497,46 @@ func run(c *engine.Ctx) {
 	// 3. exhaustive Add histories
 	tokens := []hop{{nil, true}, {[]byte{}, false}, {[]byte("a"), false}, {[]byte("aa"), false}, {[]byte("ab"), false}, {[]byte("b"), false}}
 	maxL := 4
+	// shortest histories first, so that the first witness of a defect is a smallest one
 	for mode := 0; mode < 3; mode++ {
 		for init := 0; init < 2; init++ {
-			for first := range tokens {
-				mode, init, first := mode, init, first
-				c.Unit(fmt.Sprintf("histories-exhaustive/%s/init=%d/first=%d", modeNames[mode], init, first), func() {
-					seq := []hop{tokens[first]}
-					count := 0
-					var rec func()
-					rec = func() {
-						count++
-						runHistory(c, "all Add histories of length<=4", fmt.Sprintf("hist|%s|init=%d|%s", modeNames[mode], init, histString(seq)), seq, mode, init)
-						if len(seq) == maxL || c.Stopped() {
-							return
+			for L := 1; L <= maxL; L++ {
+				firsts := []int{-1} // -1: all first tokens in one unit
+				if L == maxL {
+					firsts = []int{0, 1, 2, 3, 4, 5}
+				}
+				for _, first := range firsts {
+					mode, init, L, first := mode, init, L, first
+					c.Unit(fmt.Sprintf("histories-exhaustive/%s/init=%d/len=%d/first=%d", modeNames[mode], init, L, first), func() {
+						seq := make([]hop, 0, L)
+						count := 0
+						var rec func()
+						rec = func() {
+							if len(seq) == L {
+								count++
+								runHistory(c, "all Add histories of length<=4", fmt.Sprintf("hist|%s|init=%d|%s", modeNames[mode], init, histString(seq)), seq, mode, init)
+								return
+							}
+							for ti, t := range tokens {
+								if len(seq) == 0 && first >= 0 && ti != first {
+									continue
+								}
+								if c.Stopped() {
+									return
+								}
+								seq = append(seq, t)
+								rec()
+								seq = seq[:len(seq)-1]
+							}
 						}
-						for _, t := range tokens {
-							seq = append(seq, t)
-							rec()
-							seq = seq[:len(seq)-1]
+						rec()
+						c.Obs("exhaustive_histories", count)
+						if mode == 0 && init == 0 && L == 1 {
+							c.Obs("exhaustive:all Add histories of length<=4 over {nil,\"\",a,aa,ab,b} x 3 caller behaviours x 2 initialisations", 1)
+							c.Sample("histories-exhaustive", map[string]interface{}{"tokens": histString(tokens), "max_len": maxL, "caller_behaviours": modeNames})
 						}
-					}
-					rec()
-					c.Obs("exhaustive_histories", count)
-					if mode == 0 && init == 0 && first == 0 {
-						c.Obs("exhaustive:all Add histories of length<=4 over {nil,\"\",a,aa,ab,b} x 3 caller behaviours x 2 initialisations", 1)
-						c.Sample("histories-exhaustive", map[string]interface{}{"tokens": histString(tokens), "max_len": maxL, "caller_behaviours": modeNames})
-					}
-				})
+					})
+				}
 			}
 		}
 	}
